@@ -247,7 +247,7 @@ fn err_word(dbg: &str) -> String {
 fn gen_octets(r: &mut Rng) -> Vec<u8> {
     let base_len = match r.below(6) { 0 => r.range(250, 257) as usize, 1 => r.range(0, 6) as usize, _ => r.range(2, 120) as usize };
     let total = if base_len == 1 { 2 } else { base_len };
-    let mut w = rel_wire(r, total.min(254));
+    let mut w = rel_wire(r, total.min(255));
     if r.chance(3, 4) { w.push(0); }
     match r.below(12) {
         0 => { let i = r.below(w.len().max(1) as u64) as usize; if i < w.len() { w[i] = *r.pick(&[0u8, 0x3f, 0x40, 0x7f, 0x80, 0xbf, 0xc0, 0xff, 64, 65]); } }
@@ -259,6 +259,40 @@ fn gen_octets(r: &mut Rng) -> Vec<u8> {
         _ => {}
     }
     w
+}
+
+/// While the lead has not decided on the finding, its hits are only counted.
+const HOLD_UNCERTAIN_255: bool = true;
+
+fn uncertain_case(out: &mut Out, w: &[u8]) {
+    use domain::base::name::{ToName, UncertainName};
+    let c = format!("unc {}", hex(w));
+    let u = UncertainName::from_octets(w.to_vec());
+    let obs = match &u { Ok(UncertainName::Absolute(_)) => "A".to_string(), Ok(UncertainName::Relative(_)) => "R".to_string(), Err(e) => err_word(&format!("{:?}", e)) };
+    out.case(&c, &obs, w.len() > 1, "uncertain_from_octets");
+    match u {
+        Err(_) => {}
+        Ok(UncertainName::Absolute(n)) => oracle_abs(out, &c, n.as_slice(), false),
+        Ok(UncertainName::Relative(n)) => {
+            let ok = check_rel(n.as_slice());
+            if ok == Err("relative_name_longer_than_254") && n.as_slice().len() == 255 {
+                // and what the conversions make of it
+                let abs = UncertainName::Relative(n.clone()).into_absolute().map(|a: Name<Vec<u8>>| a.as_slice().len());
+                let d = format!("from_octets returns a 255 octet relative name; into_absolute gives {:?} octets", abs);
+                if HOLD_UNCERTAIN_255 { out.count("held:uncertain_relative_255"); } else { known_hit(out, "uncertain_relative_255", &c, &d); }
+            } else {
+                oracle_rel(out, &c, n.as_slice(), false);
+                // chain with an absolute name: Chain::new_uncertain
+                let right = Name::from_octets(vec![3, b'c', b'o', b'm', 0]).unwrap();
+                let ll = n.as_slice().len();
+                let cc = format!("chainu R {} 5", ll);
+                match UncertainName::Relative(n).chain(right) {
+                    Ok(ch) => { out.case(&cc, "Ok", true, "chain_uncertain"); let v = ch.to_vec(); oracle_abs(out, &cc, v.as_slice(), false); }
+                    Err(_) => { out.case(&cc, "LongChain", true, "chain_uncertain"); out.check(ll + 5 > 255, "chain_refused_fitting", &cc, ""); }
+                }
+            }
+        }
+    }
 }
 
 fn wire_case(out: &mut Out, w: &[u8]) {
@@ -274,6 +308,7 @@ fn wire_case(out: &mut Out, w: &[u8]) {
         out.check(Name::from_slice(w).is_ok(), "from_slice_differs", &c, "");
         slicing_oracle(out, &c, n);
     }
+    uncertain_case(out, w);
     let c = format!("rel {}", hex(w));
     let r = RelativeName::from_octets(w.to_vec());
     let obs = match &r { Ok(_) => "Ok".to_string(), Err(e) => err_word(&format!("{:?}", e)) };
@@ -442,6 +477,11 @@ fn parsed_checks<'a>(out: &mut Out, case: &str, what: &str, buf: &'a [u8], start
             (v, c, cl, labels, f.as_slice().to_vec(), p.pos())
         })
     }));
+    {
+        let c = format!("pn {} {}", hex(buf), start);
+        let o = match &r { Err(_) => "Panic".to_string(), Ok(Err(_)) => "Err".to_string(), Ok(Ok(t)) => format!("Ok:{}", hex(&t.0)) };
+        out.case(&c, &o, true, "parsed_name_t2");
+    }
     match r {
         Err(e) => out.check(false, "parsed_name_panic", case, &format!("{}: {}", what, e)),
         Ok(Err(_)) => out.check(!want_ok, "parsed_vs_flat_mismatch", case, &format!("{}: ParsedName::parse rejects a name that Name::from_octets accepts", what)),
@@ -594,6 +634,118 @@ fn zonefile_case(out: &mut Out, r: &mut Rng) {
         }
     }
     out.oracle_case(&case, true, "zonefile_name");
+}
+
+
+// ------------------------------------------------------------------ slicing (T2)
+fn okhex(r: Result<Vec<u8>, String>) -> String { match r { Ok(v) => format!("Ok:{}", hex(&v)), Err(_) => "Panic".into() } }
+
+fn slicing_t2(out: &mut Out, r: &mut Rng, w: &[u8], absolute: bool) {
+    use std::ops::Bound;
+    use std::panic::AssertUnwindSafe as A;
+    let k = if absolute { "A" } else { "R" };
+    let h = hex(w);
+    let abs = if absolute { Some(Name::from_octets(w.to_vec()).unwrap()) } else { None };
+    let rel = if absolute { None } else { Some(RelativeName::from_octets(w.to_vec()).unwrap()) };
+    // indices: every offset for short names, label starts and their neighbours otherwise
+    let mut idxs: Vec<usize> = if w.len() <= 24 { (0..=w.len() + 2).collect() } else {
+        let mut v = vec![0usize, 1, w.len() - 1, w.len(), w.len() + 1, 300, 65536];
+        let mut i = 0; while i < w.len() { v.push(i); v.push(i + 1); if i > 0 { v.push(i - 1); } let l = w[i] as usize; if l == 0 { break; } i += 1 + l; }
+        v.push(i);
+        for _ in 0..4 { v.push(r.below(w.len() as u64 + 2) as usize); }
+        v.sort(); v.dedup(); v };
+    if idxs.len() > 40 { let keep: Vec<usize> = (0..40).map(|_| *r.pick(&idxs)).collect(); idxs = keep; idxs.sort(); idxs.dedup(); }
+    for &i in &idxs {
+        let c = format!("ils {} {} {}", k, h, i);
+        let b = match (&abs, &rel) { (Some(n), _) => n.is_label_start(i), (_, Some(n)) => n.is_label_start(i), _ => unreachable!() };
+        out.case(&c, if b { "true" } else { "false" }, i > 0, "is_label_start");
+        let c = format!("split {} {} {}", k, h, i);
+        let obs = match (&abs, &rel) {
+            (Some(n), _) => catch(A(|| { let (l, rr) = n.split(i); (l.as_slice().to_vec(), rr.as_slice().to_vec()) })),
+            (_, Some(n)) => catch(A(|| { let (l, rr) = n.split(i); (l.as_slice().to_vec(), rr.as_slice().to_vec()) })),
+            _ => unreachable!() };
+        let o = match &obs { Ok((l, rr)) => format!("Ok:{}:{}", hex(l), hex(rr)), Err(_) => "Panic".into() };
+        out.case(&c, &o, true, "split");
+        out.check(obs.is_ok() == b, "split_vs_is_label_start", &c, "split accepts exactly the label starts");
+        if let Ok((l, rr)) = &obs {
+            out.check(check_rel(l).is_ok() && if absolute { check_abs(rr).is_ok() } else { check_rel(rr).is_ok() }, "split_part_invalid", &c, &o);
+        }
+        let c = format!("trunc {} {} {}", k, h, i);
+        let obs = match (&abs, &rel) {
+            (Some(n), _) => catch(A(|| n.clone().truncate(i).as_slice().to_vec())),
+            (_, Some(n)) => catch(A(|| { let mut m = n.clone(); m.truncate(i); m.as_slice().to_vec() })),
+            _ => unreachable!() };
+        if let Ok(v) = &obs { out.check(check_rel(v).is_ok(), "truncate_invalid", &c, &hex(v)); }
+        out.case(&c, &okhex(obs), true, "truncate");
+        if let Some(n) = &abs {
+            let c = format!("from {} {}", h, i);
+            let o1 = catch(A(|| n.range_from(i).as_slice().to_vec()));
+            let o2 = catch(A(|| n.slice_from(i).as_slice().to_vec()));
+            out.check(o1 == o2, "slice_from_differs", &c, "");
+            if let Ok(v) = &o1 { out.check(check_abs(v).is_ok(), "range_from_invalid", &c, &hex(v)); }
+            out.case(&c, &okhex(o1), true, "range_from");
+        }
+    }
+    // ranges: pairs of indices, all bound kinds
+    for _ in 0..8 {
+        let (a, b) = (*r.pick(&idxs), *r.pick(&idxs));
+        let lo = if r.chance(1, 5) { None } else { Some(a) };
+        let (hw, hb) = match r.below(5) { 0 => ("u".to_string(), Bound::Unbounded), 1 if b > 0 => (format!("i{}", b - 1), Bound::Included(b - 1)), _ => (format!("e{}", b), Bound::Excluded(b)) };
+        let lb = match lo { Some(a) => Bound::Included(a), None => Bound::Unbounded };
+        let c = format!("range {} {} {} {}", k, h, lo.map_or("-".to_string(), |a| a.to_string()), hw);
+        let (o1, o2) = match (&abs, &rel) {
+            (Some(n), _) => (catch(A(|| n.range((lb, hb)).as_slice().to_vec())), catch(A(|| n.slice((lb, hb)).as_slice().to_vec()))),
+            (_, Some(n)) => (catch(A(|| n.range((lb, hb)).as_slice().to_vec())), catch(A(|| n.slice((lb, hb)).as_slice().to_vec()))),
+            _ => unreachable!() };
+        out.check(o1 == o2, "slice_range_differ", &c, "");
+        if let Ok(v) = &o1 { out.check(check_rel(v).is_ok(), "range_invalid", &c, &hex(v)); }
+        out.case(&c, &okhex(o1), true, "range");
+    }
+    // parent
+    let c = format!("parent {} {}", k, h);
+    let o = match (&abs, &rel) {
+        (Some(n), _) => catch(A(|| n.parent().map(|p| p.as_slice().to_vec()))),
+        (_, Some(n)) => catch(A(|| n.parent().map(|p| p.as_slice().to_vec()))),
+        _ => unreachable!() };
+    let ow = match &o { Ok(None) => "None".to_string(), Ok(Some(v)) => format!("Some:{}", hex(v)), Err(_) => "Panic".into() };
+    if let Ok(Some(v)) = &o { out.check(if absolute { check_abs(v).is_ok() } else { check_rel(v).is_ok() }, "parent_invalid", &c, &hex(v)); }
+    out.case(&c, &ow, w.len() > 1, "parent");
+    // strip_suffix: a real suffix (case changed), a non-suffix, the whole name
+    let mut starts = vec![0usize]; { let mut i = 0; while i < w.len() && w[i] != 0 { i += 1 + w[i] as usize; starts.push(i); } }
+    for t in 0..3 {
+        let cut = *r.pick(&starts);
+        let mut base: Vec<u8> = w[cut..].to_vec();
+        for x in base.iter_mut() { if x.is_ascii_alphabetic() && r.chance(1, 3) { *x ^= 0x20; } }
+        // keep length octets intact: flipping bit 5 of a length octet would corrupt the name
+        { let mut b2 = w[cut..].to_vec(); let mut i = 0; while i < b2.len() && b2[i] != 0 { let l = b2[i] as usize; for j in i + 1..i + 1 + l { b2[j] = base[j]; } i += 1 + l; } base = b2; }
+        if t == 1 && base.len() > 2 { let j = 1; base[j] = if base[j] == b'#' { b'%' } else { b'#' }; }
+        let c = format!("strip {} {} {}", k, h, hex(&base));
+        let o = match (&abs, &rel) {
+            (Some(n), _) => { let bn = Name::from_octets(base.clone()).unwrap(); catch(A(|| n.clone().strip_suffix(&bn).ok().map(|p| p.as_slice().to_vec()))) }
+            (_, Some(n)) => { let bn = RelativeName::from_octets(base.clone()).unwrap(); catch(A(|| { let mut m = n.clone(); m.strip_suffix(&bn).ok().map(|_| m.as_slice().to_vec()) })) }
+            _ => unreachable!() };
+        let ow = match &o { Ok(None) => "None".to_string(), Ok(Some(v)) => format!("Some:{}", hex(v)), Err(_) => "Panic".into() };
+        if let Ok(Some(v)) = &o { out.check(check_rel(v).is_ok(), "strip_suffix_invalid", &c, &hex(v)); }
+        out.check(o.is_ok(), "strip_suffix_panic", &c, "");
+        out.case(&c, &ow, true, "strip_suffix");
+    }
+    if let Some(n) = &abs {
+        let c = format!("intorel {}", h);
+        let o = catch(A(|| n.clone().into_relative().as_slice().to_vec()));
+        if let Ok(v) = &o { out.check(check_rel(v).is_ok(), "into_relative_invalid", &c, &hex(v)); }
+        out.case(&c, &okhex(o), true, "into_relative");
+    }
+    if let Some(n) = &rel {
+        let c = format!("intoabs {}", h);
+        let o = catch(A(|| n.clone().into_absolute().map(|a| a.as_slice().to_vec()).map_err(pe)));
+        let ow = match &o { Ok(Ok(v)) => format!("Ok:{}", hex(v)), Ok(Err(e)) => e.to_string(), Err(_) => "Panic".into() };
+        if let Ok(Ok(v)) = &o {
+            out.check(check_abs(v).is_ok(), "into_absolute_invalid", &c, &hex(v));
+            let cr = n.clone().chain_root(); use domain::base::name::ToName;
+            out.check(cr.to_vec().as_slice() == &v[..], "chain_root_differs", &c, "");
+        }
+        out.case(&c, &ow, true, "into_absolute");
+    }
 }
 
 // ------------------------------------------------------------------ chain
@@ -869,7 +1021,7 @@ fn main() {
     // ---- wire validators, slicing, chain
     let fixed: Vec<Vec<u8>> = vec![vec![], vec![0], vec![0, 0], vec![1], vec![1, 97], vec![1, 97, 0], vec![64, 1], vec![0xc0, 5], vec![0xc0],
         vec![0x80, 1, 0], vec![5, 1, 2], { let mut v = rel_wire(&mut r, 254); v.push(0); v }, { let mut v = rel_wire(&mut r, 254); v.push(1); v.push(97); v.push(0); v },
-        rel_wire(&mut r, 254), { let mut v = rel_wire(&mut r, 252); v.extend([1, 97, 1]); v }];
+        rel_wire(&mut r, 254), rel_wire(&mut r, 255), { let mut v = vec![]; for _ in 0..3 { v.push(63u8); v.extend([b'a'; 63]); } v.push(62); v.extend([b'b'; 62]); v }, { let mut v = rel_wire(&mut r, 252); v.extend([1, 97, 1]); v }];
     for w in &fixed { idx += 1; if out.wants(idx) { wire_case(&mut out, w); } }
     let n_wire = if a.thorough { 60_000 } else { 6_000 } * a.scale;
     for _ in 0..n_wire { let w = gen_octets(&mut r); idx += 1; if out.wants(idx) { wire_case(&mut out, &w); } }
@@ -891,6 +1043,17 @@ fn main() {
         let total = match r.below(3) { 0 => r.range(0, 10) as usize, 1 => r.range(245, 254) as usize, _ => r.range(2, 100) as usize };
         let mut w = rel_wire(&mut r, if total == 1 { 2 } else { total }); w.push(0);
         idx += 1; if out.wants(idx) { display_case(&mut out, &w); }
+    }
+
+    // ---- slicing at label boundaries (T2 + oracle)
+    let n_slice = if a.thorough { 3_000 } else { 300 } * a.scale;
+    for i in 0..n_slice {
+        let total = match r.below(4) { 0 => r.range(0, 8) as usize, 1 => r.range(240, 254) as usize, _ => r.range(2, 40) as usize };
+        let total = if total == 1 { 2 } else { total };
+        let mut w = rel_wire(&mut r, total);
+        let absolute = i % 2 == 0;
+        if absolute { w.push(0); }
+        idx += 1; if out.wants(idx) { slicing_t2(&mut out, &mut r, &w, absolute); }
     }
 
     // ---- names parsed from messages and scanned from zone-file text (oracle only)
